@@ -53,7 +53,8 @@ struct Ctx {
 	const char* prop = "C05"; const char* clause = "phase-order";
 };
 
-// serialization canonical-form tables, per process (one variant per process)
+// serialization canonical-form tables, per execution (reset by check_static at the start of every execution, so that a
+// violation never depends on an earlier run and always replays from its own case)
 std::map<std::vector<uint8_t>, int> g_bytes_to_activity;
 std::map<int, std::vector<uint8_t> > g_activity_to_bytes;
 
@@ -69,6 +70,8 @@ struct Mon {
 	int expect_result = -1;          // result the next view must report for the previous action
 	bool logger_ops_effective = true;
 	int last_method = -1, last_cls = -1;
+	std::set<int> excused_groups;
+	int group_seq = 0, undefined_group = 0;   // verbose builds: every delivery to a class without the callback is recorded exactly once
 	bool limit_reached = false;
 	uint8_t consumed_logs[32] = {0};
 	const void* ev_addr = 0; bool ev_addr_set = false;
@@ -89,9 +92,9 @@ struct Mon {
 	const HookEv* peek() const { return hi < x.hooks.size() ? &x.hooks[hi] : 0; }
 	bool peek_is(int method, int cls) const { const HookEv* e = peek(); return e && e->step == 0 && e->method == method && e->cls == cls; }
 
-	void explog(int kind, int origin, int arg, size_t pos, bool optional = false) {
-		if (!T.logger) return;
-		LogEv l; l.kind = static_cast<uint8_t>(kind); l.origin = static_cast<uint8_t>(origin); l.arg = static_cast<uint8_t>(arg); l.ctx_ok = optional ? 2 : 1; l.pos = static_cast<uint32_t>(pos);
+	void explog(int kind, int origin, int arg, size_t pos, bool optional = false, int group = 0) {
+		if (!T.logger) { if (group > 0) excused_groups.insert(group); return; }   // one alternative position had no logger: the record may be absent
+		LogEv l; l.grp = static_cast<uint16_t>(group); l.kind = static_cast<uint8_t>(kind); l.origin = static_cast<uint8_t>(origin); l.arg = static_cast<uint8_t>(arg); l.ctx_ok = optional ? 2 : 1; l.pos = static_cast<uint32_t>(pos);
 		exp.push_back(l);
 	}
 
@@ -146,6 +149,7 @@ struct Mon {
 		if (e.has_pending) {
 			const size_t nv = out.size();
 			cmp_trans(e.pending, cx.pending, "pendingTransition()", "C03", "pending-is-request", e);
+			if (out.size() > nv) viol("C03", "pending-is-request", "guards in " + ev_str(e) + " do not see the request under evaluation " + (cx.pending ? req_str(*cx.pending) : std::string("(none)")) + " as their pending transition (they see " + tr_str(e.pending) + ")");
 			if (out.size() > nv) viol("C06", "pending-view", "pendingTransition() inside " + ev_str(e) + " is " + tr_str(e.pending) + ", the request under evaluation in this round is " + (cx.pending ? req_str(*cx.pending) : std::string("(none)")));
 		}
 		if (e.has_current) cmp_trans(e.current, cx.current, "currentTransition()", "C06", "current-view", e);
@@ -163,8 +167,14 @@ struct Mon {
 		for (unsigned i = 0; i < N; ++i) if (bit_get(e.active, i)) { ++cnt; which = static_cast<int>(i); }
 		int m = e.machine_active == SUT_INVALID ? -1 : e.machine_active;
 		if (!((m < 0 && cnt == 0) || (m >= 0 && cnt == 1 && which == m)))
+		{
 			viol("C06", "isactive-agrees", "inside " + ev_str(e) + " control.isActive(id) is true for " + (cnt == 1 ? "id " + S(which) : S(cnt) + " ids") + " while the machine reports active state " + (m < 0 ? std::string("none") : S(m)));
-		if (!e.active_tmpl_ok) viol("C06", "isactive-agrees", "control.isActive<T>() disagrees with control.isActive(id) inside " + ev_str(e));
+			if (cnt != (m < 0 ? 0 : 1)) viol("C01", "exactly-one-active", "inside " + ev_str(e) + " user code sees " + S(cnt) + " states reported active through control.isActive(id)");
+		}
+		if (!e.active_tmpl_ok) {
+			viol("C06", "isactive-agrees", "control.isActive<T>() disagrees with control.isActive(id) inside " + ev_str(e));
+			viol("C01", "exactly-one-active", "inside " + ev_str(e) + " control.isActive<T>() names a different set of active states than control.isActive(id)");
+		}
 		if (!cx.skip_active && m != cx.expect_active)
 			viol("C01", "active-names-open", "inside " + ev_str(e) + " the machine reports active state " + (m < 0 ? std::string("none") : S(m)) + " but the state whose enter() ran last without exit() is " + (cx.expect_active < 0 ? std::string("none") : S(cx.expect_active)));
 		// --- C10: plan as seen through this control
@@ -173,8 +183,9 @@ struct Mon {
 			if (!e.plan_m_same) viol("C10", "iterate-equals-appended", "mutable and read-only plan views differ inside " + ev_str(e));
 		}
 		// --- result of the previous action
-		if (e.step > 0 && expect_result >= 0 && e.last_result != expect_result)
-			viol("C10", "append-result", "plan edit inside " + ev_str(e) + " returned " + S(e.last_result) + ", expected " + S(expect_result) + " with " + S(static_cast<int>(T.mirror.size())) + " task(s) of capacity " + S(static_cast<int>(C)));
+		if (e.step > 0 && (e.last_result & 0x80)) viol("C10", "views-see-current-plan", "a read-only plan view obtained before a plan edit inside " + ev_str(e) + " does not show the plan as it is after the edit");
+		if (e.step > 0 && expect_result >= 0 && (e.last_result & 0x7f) != expect_result)
+			viol("C10", "append-result", "plan edit inside " + ev_str(e) + " returned " + S(e.last_result & 0x7f) + ", expected " + S(expect_result) + " with " + S(static_cast<int>(T.mirror.size())) + " task(s) of capacity " + S(static_cast<int>(C)));
 		expect_result = -1;
 		// --- C05: the caller's own event object
 		if (e.ev_type != SUT_INVALID) {
@@ -192,6 +203,13 @@ struct Mon {
 		else { bit_set(T.mayF, static_cast<unsigned>(id), true); cycle_fail_call = true; if (cx.phase && e.cls == T.open && id == T.open) own_fail = true; }
 		explog(LOG_TASK_STATUS, id, success ? 0 : 1, hi + 1);
 		g_stats.hit(success ? "reports_success" : "reports_failure");
+	}
+
+	// a state that exits withdraws its own reports (the engine's design: exit clears the state's task status); after that
+	// neither a success nor a failure of that state is outstanding any more
+	void forget_reports(int st) {
+		if (st < 0) return;
+		bit_set(T.mayS, static_cast<unsigned>(st), false); bit_set(T.mayF, static_cast<unsigned>(st), false); bit_set(T.mustS, static_cast<unsigned>(st), false);
 	}
 
 	void mirror_append(const SutAction& a) {
@@ -265,7 +283,7 @@ struct Mon {
 			// a delivery to a class that defines no such callback: invisible to the hooks. A method record naming it at
 			// this very moment "corresponds to a delivery to that state" (verbose builds always emit it, plain logging
 			// builds emit it for the react/query family), so it is tolerated but not required.
-			if (cls >= 0 && cls <= SUT_INVALID) explog(LOG_METHOD, cls, method, hi, true);
+			if (cls >= 0 && cls <= SUT_INVALID) explog(LOG_METHOD, cls, method, hi, true, undefined_group ? undefined_group : ++group_seq);
 			return true;
 		}
 		const int k = (method == M_PLAN_SUCCEEDED || method == M_PLAN_FAILED) ? 0 : n_inj(cls);
@@ -277,6 +295,10 @@ struct Mon {
 			if (!e || e->step != 0 || e->method != method || e->cls != cls) {
 				std::string got = e ? ev_str(*e) : std::string("nothing");
 				if (j == 0) {
+					if (e && e->flavour == CF_GUARD && (x.kind == OPX_REPLAY_MSG || x.kind == OP_REPLAY_TRANSITION || x.kind == OP_LOAD)) {
+						viol(x.kind == OP_LOAD ? "C12" : "C11", x.kind == OP_LOAD ? "load-consults-no-guards" : "replay-consults-no-guards", "guard " + ev_str(*e) + " was consulted although load/replay apply transitions without guards");
+						viol("C03", "no-guards-on-replay-load", "guard " + ev_str(*e) + " consulted during load/replay");
+					}
 					if (e && e->step == 0 && e->method == method && e->cls != cls)
 						viol("C14", "callbacks-reach-the-addressed-state", std::string(METHOD_NAMES[method]) + " addressed to state " + sid(cls) + " ran on the class declared at position " + sid(e->cls));
 					{
@@ -313,7 +335,7 @@ struct Mon {
 		if (static_cast<int>(survivor.dest) != T.open) {
 			int old = T.open;
 			cx.expect_active = old; delivery(M_EXIT, old, cx);
-			if (old >= 0) bit_set(T.mustS, static_cast<unsigned>(old), false);
+			forget_reports(old);
 			T.open = survivor.dest;
 			cx.expect_active = T.open; delivery(M_ENTER, T.open, cx);
 			g_stats.hit("transitions_applied");
@@ -340,11 +362,18 @@ struct Mon {
 			// observed de-duplication of the unchanged engine: a re-request of the destination already accepted from an
 			// external payload-free request may be absorbed without a round. Nothing else may skip its guards.
 			const bool absorbable = survivor.has && survivor.dest == R.dest && survivor.origin == SUT_INVALID && !survivor.has_payload;
-			if (survivor.has && survivor.dest == R.dest) {
+			{
 				const bool round_starts = vis_exit ? peek_is(M_EXIT_GUARD, T.open) : vis_entry ? peek_is(M_ENTRY_GUARD, R.dest) : false;
 				if (!vis_exit && !vis_entry) { if (absorbable) { ambiguous = true; alt = survivor; } }
 				else if (!round_starts) {
-					if (!absorbable) dropped_request(R, survivor);
+					// the round that should evaluate R does not start: tolerated only as the de-duplication described above
+					if (!absorbable) {
+						if (survivor.has && survivor.dest == R.dest) dropped_request(R, survivor);
+						else {
+							viol("C02", "latest-request-is-processed", "the outstanding request " + req_str(R) + " was neither evaluated by guards nor applied in this processing step");
+							if (rounds > 0) viol("C03", "redirect-evaluated-by-fresh-round", "request " + req_str(R) + " made from inside a guard was not evaluated by a fresh round of guards");
+						}
+					}
 					T.last_consumed = R; T.slot.clear(); ++rounds; g_stats.hit("duplicate_requests_absorbed"); continue;
 				}
 			}
@@ -487,9 +516,13 @@ struct Mon {
 		if (dr && da) {
 			if (peek_is(M_QUERY, a)) { delivery(M_QUERY, a, cx); delivery(M_QUERY, R, cx); }
 			else { delivery(M_QUERY, R, cx); delivery(M_QUERY, a, cx); }
-		} else if (dr) { delivery(M_QUERY, a, cx); delivery(M_QUERY, R, cx); delivery(M_QUERY, a, cx); }
-		else if (da) { delivery(M_QUERY, R, cx); delivery(M_QUERY, a, cx); delivery(M_QUERY, R, cx); }
-		else { delivery(M_QUERY, R, cx); delivery(M_QUERY, a, cx); delivery(M_QUERY, R, cx); }
+		} else if (dr) { undefined_group = ++group_seq; delivery(M_QUERY, a, cx); delivery(M_QUERY, R, cx); delivery(M_QUERY, a, cx); undefined_group = 0; }
+		else if (da) { undefined_group = ++group_seq; delivery(M_QUERY, R, cx); delivery(M_QUERY, a, cx); delivery(M_QUERY, R, cx); undefined_group = 0; }
+		else {
+			// neither defines query: records (verbose) for root and state in either order
+			const int gr = ++group_seq, ga = ++group_seq;
+			undefined_group = gr; delivery(M_QUERY, R, cx); undefined_group = ga; delivery(M_QUERY, a, cx); undefined_group = gr; delivery(M_QUERY, R, cx); undefined_group = 0;
+		}
 	}
 
 	void activation(int forced_dest /* -1 = normal activation with guards */) {
@@ -579,7 +612,7 @@ struct Mon {
 		}
 		if (expect_ok_result && x.result != 1) viol("C11", "replay-applies", "replayTransition(" + S(dest) + ") returned false");
 		Req none; Ctx cx; cx.prop = "C11"; cx.clause = "replay-runs-only-enter-exit-reenter"; cx.current = &none;
-		if (dest != T.open) { cx.expect_active = T.open; delivery(M_EXIT, T.open, cx); if (T.open >= 0) bit_set(T.mustS, static_cast<unsigned>(T.open), false); T.open = dest; cx.expect_active = dest; delivery(M_ENTER, dest, cx); }
+		if (dest != T.open) { cx.expect_active = T.open; delivery(M_EXIT, T.open, cx); forget_reports(T.open); T.open = dest; cx.expect_active = dest; delivery(M_ENTER, dest, cx); }
 		else { cx.expect_active = dest; delivery(M_REENTER, dest, cx); }
 		T.prev = Req(); T.prev.has = true; T.prev.dest = static_cast<uint8_t>(dest); T.prev.origin = SUT_INVALID; T.prev_alt_ok = false;
 		mark_nontrivial("replayed_transitions");
@@ -640,21 +673,29 @@ struct Mon {
 		static const char* const KN[] = { "method", "transition", "task-status", "plan-status", "cancellation" };
 		static const char* const CLN[] = { "method-record", "transition-record", "task-status-record", "plan-status-record", "cancellation-record" };
 		size_t i = 0, j = 0;
+		std::map<int, int> group_hits;
 		while (j < exp.size()) {
 			const LogEv& e = exp[j];
 			const bool opt = e.ctx_ok == 2;
 			if (i < act.size() && act[i].kind == e.kind && act[i].origin == e.origin && act[i].arg == e.arg && (act[i].pos == e.pos || !opt)) {
 				if (act[i].pos != e.pos) { viol("C16", "record-order", std::string(KN[e.kind]) + " record (" + sid(e.origin) + "," + S(e.arg) + ") was emitted after " + S(static_cast<int>(act[i].pos)) + " callbacks of this call, expected after " + S(static_cast<int>(e.pos))); return; }
 				if (!act[i].ctx_ok) viol("C16", "record-context", "a record carried a context other than the machine's");
-				if (opt) g_stats.hit("records_for_undefined_callbacks");
+				if (opt) { g_stats.hit("records_for_undefined_callbacks"); ++group_hits[e.grp]; }
 				++i; ++j; continue;
 			}
-			if (opt) { ++j; continue; }
+			if (opt) { group_hits[e.grp] += 0; ++j; continue; }
 			if (i < act.size()) viol("C16", CLN[e.kind], std::string("record #") + S(static_cast<int>(i)) + " is a " + KN[act[i].kind] + " record (" + sid(act[i].origin) + "," + S(act[i].arg) + "), expected a " + KN[e.kind] + " record (" + sid(e.origin) + "," + S(e.arg) + ")");
 			else viol("C16", CLN[e.kind], std::string("missing ") + KN[e.kind] + " record (" + sid(e.origin) + "," + S(e.arg) + ")");
 			return;
 		}
 		if (i < act.size()) viol("C16", CLN[act[i].kind], std::string("extra ") + KN[act[i].kind] + " record (" + sid(act[i].origin) + "," + S(act[i].arg) + ") that corresponds to nothing that happened at that moment");
+		else if (g_info->f_verbose) {
+			// verbose logging additionally records deliveries to classes that define no callback: exactly one record each
+			for (std::map<int, int>::iterator it = group_hits.begin(); it != group_hits.end(); ++it) if (it->first > 0 && it->second != 1 && !excused_groups.count(it->first)) {
+				for (size_t q = 0; q < exp.size(); ++q) if (exp[q].grp == it->first) { viol("C16", "verbose-records-every-delivery", std::string("verbose logging emitted ") + S(it->second) + " method records for the delivery of " + (exp[q].arg < M_COUNT ? METHOD_NAMES[exp[q].arg] : "?") + " to " + sid(exp[q].origin) + " (a class that does not define it); exactly one is due"); break; }
+				break;
+			}
+		}
 		if (T.logger && !exp.empty()) g_stats.hit("logged_ops");
 	}
 
@@ -797,6 +838,7 @@ uint64_t hash_plan(uint64_t h, const PlanSnap& p) {
 } // namespace
 
 void check_static(std::vector<Violation>& out) {
+	g_bytes_to_activity.clear(); g_activity_to_bytes.clear();
 	const unsigned N = g_info->n_states;
 	for (unsigned i = 0; i < N; ++i) if (g_info->id_of[i] != i) {
 		Violation v; v.prop = "C14"; v.clause = "stateid-is-declaration-position"; v.msg = "stateId<T>() of the state declared at position " + S(static_cast<int>(i)) + " is " + S(g_info->id_of[i]); out.push_back(v); break;
